@@ -261,3 +261,28 @@ Example ex_declared_absent : vget_by_path ex_d T_STRUCT (encode ex_v) 0 [TName [
 Example ex_unknown_after_absent : vget_by_path ex_d T_STRUCT (encode ex_v) 0 [TName [108]; TIndex 7; TName [113]] = GNotFound.
 Proof. vm_compute. reflexivity. Qed.
 Example ex_ival : forget (to_ival true true ex_v) = to_ival false false ex_v. Proof. vm_compute. reflexivity. Qed.
+
+(* ================================================================== (G) the skipping primitives from the Go source *)
+(* thrift/binary_skip.go skipn / skipstr / next_nopanic - the primitives every SkipGo step is made of - are translated from the Go text
+   on every build (gen/Gen_thrift.v).  tskip_gen runs the generated definition on (buffer, cursor), tskip_model runs ThriftWire's
+   drop / skipstr on the bytes from the cursor on (Check20h.v); both answer (succeeded, cursor afterwards). *)
+From DG Require GoSem Gen_thrift Check20h GenProtoskipProofs GenThriftskipProofs.
+
+Theorem C01_skipn_from_source :
+  forall buf rd n, GenProtoskipProofs.in_buf buf rd -> 0 <= n < 2 ^ 62 ->
+  fst (Check20h.tskip_gen 0 buf rd n) = Check20h.tskip_model 0 buf rd n.
+Proof. exact GenThriftskipProofs.skipn_is_drop. Qed.
+Print Assumptions C01_skipn_from_source.
+
+Theorem C01_skipstr_from_source :
+  forall buf rd, bytes_ok buf -> GenProtoskipProofs.in_buf buf rd -> GoSem.blen buf < 2 ^ 31 ->
+  fst (Check20h.tskip_gen 1 buf rd 0) = Check20h.tskip_model 1 buf rd 0.
+Proof. exact GenThriftskipProofs.skipstr_is_skipstr. Qed.
+Print Assumptions C01_skipstr_from_source.
+
+Theorem C01_next_nopanic_from_source :
+  forall buf rd n, GenProtoskipProofs.in_buf buf rd -> 0 <= n < 2 ^ 62 ->
+  Gen_thrift.BinaryProtocol_next_nopanic buf rd n =
+    if rd + n >? GoSem.blen buf then ([], GoSem.Err_io_EOF, buf, rd) else (GoSem.slice_range buf rd (rd + n), 0, buf, rd + n).
+Proof. exact GenThriftskipProofs.next_nopanic_is_take. Qed.
+Print Assumptions C01_next_nopanic_from_source.
